@@ -74,6 +74,6 @@ def simplify(run):
 
 
 def execute(run, profile, props):
-    eng = coresim.Engine(run, profile)
+    eng = coresim.Engine(run, profile, props)
     eng.execute()
     return eng.result(props)
